@@ -763,6 +763,10 @@ impl World {
             let res = a.shared.borrow().run_result.clone();
             if let Some(Err(e)) = &res {
                 let explained = e.contains("Transport") || e.contains("UnexpectedShutdown");
+                if !explained && a.plan.abuser {
+                    // Closing an abuser's connection is always an acceptable outcome (C11).
+                    continue;
+                }
                 if !explained {
                     // Was a payload that is not a well-formed value, produced by a 1.20 peer, on its
                     // way to this pre-1.20 connection? (Conversion happens in the receiver's task.)
